@@ -397,6 +397,10 @@ def _select_table(init: ast.FunctionDef, pattern: str, root_name: str, has_regex
     return t, is_sorted, dedup
 
 
+def _returns(fn: ast.FunctionDef) -> list[str]:
+    return [_txt(n.value) for n in ast.walk(fn) if isinstance(n, ast.Return) and n.value is not None]
+
+
 def _kwargs_of_super_init(init: ast.FunctionDef) -> dict[str, str]:
     for n in ast.walk(init):
         if isinstance(n, ast.Call) and _txt(n.func) == "super().__init__":
@@ -417,6 +421,7 @@ def _class_table(h5_tree, ds_tree) -> tuple[dict[str, bool], dict[str, bool]]:
         "self.get_slice_data(self.sensitivity_maps/filename.name,slice_no)" in _txt(x) for x in ast.walk(gi) if isinstance(x, ast.Assign))
     t["h5_pass_h5s_same_slice_same_name"] = any(
         "self.get_slice_data(path/filename.name,slice_no,key=h5_key)" in _txt(x) for x in ast.walk(gi) if isinstance(x, ast.Assign))
+    t["h5_len_is_len_data"] = _returns(find_function(h5_tree, "H5SliceData.__len__")) == ["len(self.data)"]
     same = {"filenames_filter": "filenames_filter", "filenames_lists": "filenames_lists", "filenames_lists_root": "filenames_lists_root",
             "regex_filter": "regex_filter", "root": "data_root", "pass_h5s": "pass_h5s"}
     for cls in ("FastMRIDataset", "CalgaryCampinasDataset"):
@@ -458,6 +463,7 @@ def _class_table(h5_tree, ds_tree) -> tuple[dict[str, bool], dict[str, bool]]:
         and len(br.orelse) == 1 and isinstance(br.orelse[0], ast.If) and _txt(br.orelse[0].test) == "self.kspace_context=='slice'"
         and [_txt(x) for x in br.orelse[0].body] == ["curr_data=np.array(data[key][slice_no])"]
         and [_txt(x) for x in br.orelse[0].orelse] == ["curr_data=np.array(data[key][:,slice_no])"])
+    c["len_is_len_data"] = _returns(find_function(ds_tree, "CMRxReconDataset.__len__")) == ["len(self.data)"]
     gi = find_function(ds_tree, "CMRxReconDataset.__getitem__")
     c["item_reads_data_idx"] = any(_txt(x) == "filename,slice_no=self.data[idx]" for x in gi.body)
     c["context_axis_second_after_swap"] = any(_txt(x) == "sample['kspace']=np.swapaxes(sample['kspace'],0,1)" for x in ast.walk(gi) if isinstance(x, ast.Assign))
@@ -553,10 +559,6 @@ def _shared_state_table(trees: dict[str, ast.Module]) -> dict[str, bool]:
         mdeco = [_txt(d) for f in tree.body if isinstance(f, ast.FunctionDef) for d in f.decorator_list]
         t[f"{short}_has_no_memoised_function"] = not any("cache" in d for d in mdeco)
     return t
-
-
-def _returns(fn: ast.FunctionDef) -> list[str]:
-    return [_txt(n.value) for n in ast.walk(fn) if isinstance(n, ast.Return) and n.value is not None]
 
 
 def _fake_index_table(ds_tree) -> dict[str, bool]:
